@@ -24,6 +24,27 @@ def put(tag, body):
         s = re.sub(re.escape(b) + r".*?" + re.escape(e), lambda _: b + "\n" + body + "\n" + e, s, flags=re.S)
     else:
         raise SystemExit("marker missing: " + tag)
+# status table from the evidence files (quick) and, if present, the log of a complete thorough run (tools/run_all.sh output)
+status = ["| Id | quick wall | thorough wall | evaluations | distinct non-trivial | traces validated against the code | TLC states |",
+          "|----|-----------:|--------------:|------------:|---------------------:|----------------------------------:|-----------:|"]
+thor = {}
+for cand in sorted(glob.glob('/root/.vp/runs/*/log')):
+    for line in open(cand, errors="replace"):
+        m = re.match(r"(\w+) tier=thorough seed=\d+ exit=(\d+) (\d+)s", line)
+        if m and m.group(2) == "0":
+            thor[m.group(1)] = m.group(3) + " s"
+for d, ids in (("/verif/evidence", [f"C{i:02d}" for i in range(1, 21)]), ("/verif/evidence_extended", ["X01", "X02"])):
+    for pid in ids:
+        f = f"{d}/{pid}.json"
+        if not os.path.exists(f):
+            continue
+        e = json.load(open(f))
+        c = e["coverage"]
+        if e["tier"] != "quick":
+            continue
+        status.append(f"| {pid} | {round(e['wall_s'])} s | {thor.get(pid, '-')} | {c.get('evaluations', 0)} | {c.get('distinct_nontrivial', 0)} | "
+                      f"{c.get('traces_validated_against_impl', 0)} | {c.get('states', 0)} |")
+put("STATUS", "\n".join(status))
 put("FINDINGS", "\n".join(rows))
 put("SEEDS", f"{n} seeded changes, {det} detected by the quick tier of their property's check.\n\n" + "\n".join(seeds))
 open(p, 'w').write(s)
